@@ -393,11 +393,24 @@ func execV4Acc(op string, args []string) string {
 		if a == nil {
 			return "bad-op"
 		}
-		p, err := dhcpv4.FromBytes(unhx(args[2]))
+		// decoded as a receiver decodes: from a buffer that is reused before the
+		// accessor is called (and once more before it is called again)
+		rb := unhx(args[2])
+		p, err := dhcpv4.FromBytes(rb)
 		if err != nil {
 			return "err"
 		}
-		return "ok " + a.run(p, time.Duration(atoi64(args[1])))
+		for i := range rb {
+			rb[i] ^= 0x5a
+		}
+		out := a.run(p, time.Duration(atoi64(args[1])))
+		for i := range rb {
+			rb[i] = 0xff
+		}
+		if again := a.run(p, time.Duration(atoi64(args[1]))); again != out {
+			return "ok " + out + " THEN " + again
+		}
+		return "ok " + out
 	case "v4setget":
 		if len(args) != 3 {
 			return "bad-op"
